@@ -427,6 +427,43 @@ func (w *W) c05Unknowns(t *gcore.Type, id string, c *dynamicpb.Message) {
 	w.nontr++
 }
 
+// c05Decoded: the original is a message that came out of the generated Unmarshal (of every legal encoding of the case), as
+// most messages a program re-marshals do: its in-memory representation differs from a freshly built one (empty but non-nil
+// slices, retained unknown fields, a primed size cache). What the reference reads from its Marshal output must equal what
+// reflection reads from the message itself.
+func (w *W) c05Decoded(t *gcore.Type, id string, c *dynamicpb.Message) {
+	for _, v := range variants(t.RefDesc(), c, 1) {
+		x := t.New()
+		tree, err, pan := w.decodeGen(t, x, v.b)
+		if pan != "" || err != nil || tree == nil || !initialized(tree) {
+			continue // C06 / C17
+		}
+		vid := id + "/decoded:" + v.name
+		cls := classOfVariant(v.name)
+		var b []byte
+		if p := guard(func() { b, err = x.(marshaler).Marshal() }); p != "" || err != nil {
+			continue // C04
+		}
+		w.evals++
+		d, derr := refDecode(t, b)
+		if derr != nil {
+			w.failV(t, "C05/decoded-original/reference-rejects-generated-bytes", id, cls, vid, derr.Error(), v.b)
+			continue
+		}
+		if df := gcore.Diff(tree, d); df != "" {
+			// the message may hold as raw unknown bytes what the reference (which knows every extension of the corpus)
+			// resolves to an extension field: compare after giving the original's own encoding to the same reader
+			if n, nerr := refDecode(t, canonical(tree)); nerr == nil && gcore.Diff(n, d) == "" {
+				w.nontr++
+				continue
+			}
+			w.failV(t, "C05/decoded-original/decoded-differs-from-original", id, cls, vid, df, v.b)
+			continue
+		}
+		w.nontr++
+	}
+}
+
 // decodeGen runs the generated Unmarshal on a private copy of b into x and reads the tree back.
 func (w *W) decodeGen(t *gcore.Type, x any, b []byte) (tree *dynamicpb.Message, err error, panicked string) {
 	in := append([]byte{}, b...)
@@ -1312,6 +1349,7 @@ func worker(sh *ev.Shard, prop string) {
 			case "C05":
 				w.checkC05(t, c.ID, c.Msg)
 				w.c05Unknowns(t, c.ID, c.Msg)
+				w.c05Decoded(t, c.ID, c.Msg)
 			case "C06":
 				w.checkC06(t, c.ID, c.Msg)
 			case "C07":
